@@ -607,7 +607,8 @@ def triples(draw):
     if sc in (11, 12) or draw(st.integers(0, 9)) == 1:
         # search_dates as the repeated call: language detection among several candidates keeps per-locale memos that are built
         # by whichever call comes first, so the same search is made twice around an interfering call
-        langs = draw(st.sampled_from([None, ["fr", "en"], ["de", "fr"], ["en", "fr", "de"], ["fr"], ["tr", "en"]]))
+        langs = draw(st.sampled_from([None, ["fr", "en"], ["de", "fr"], ["en", "fr", "de"], ["fr"], ["tr", "en"], ["en", "ru"], ["ru", "en"],
+                                      ["en", "de"], ["de", "en", "fr"]]))
         Ss = draw(st.sampled_from([None, {"NORMALIZE": False}, {"NORMALIZE": False, "DATE_ORDER": "DMY"}, {"SKIP_TOKENS": ["de"]},
                                    {"DATE_ORDER": "DMY"}, {"NORMALIZE": True}]))
         text = draw(st.sampled_from(TEXTS))
@@ -615,12 +616,17 @@ def triples(draw):
         h = [["search", text, langs, copy.deepcopy(Ss), add]]
         k = draw(st.integers(0, 3))
         if k == 0:
-            h.append(["search", draw(st.sampled_from(TEXTS)), draw(st.sampled_from([None, ["fr", "en"], ["de"]])), _variant(draw, Ss), False])
+            other = draw(st.sampled_from([None, ["fr", "en"], ["de"]]))
+            if langs and len(langs) > 1 and draw(st.booleans()):
+                # the same candidate languages in another order (or with one listed twice): whatever detection memoises per
+                # *set* of candidates must not be laid out for the first caller's order
+                other = list(reversed(langs)) if draw(st.booleans()) else list(langs) + [langs[0]]
+            h.append(["search", draw(st.sampled_from([text, draw(st.sampled_from(TEXTS))])), other, _variant(draw, Ss), False])
         elif k == 1:
             h.append(["parse", draw(st.sampled_from(STRINGS)), None, draw(st.sampled_from(LANGS[1:])), None, None, _variant(draw, Ss)])
         h.append(["search", text, langs, copy.deepcopy(Ss), add])
         return {"history": h}
-    if draw(st.integers(0, 9)) == 0:
+    if draw(st.integers(0, 5)) == 0:
         # order-sensitive list settings: the fallback order of DEFAULT_LANGUAGES matters when the given languages fail and
         # the given order is requested; the interfering call uses the same list in another order
         dl = draw(st.permutations(draw(st.sampled_from([["fr", "en"], ["de", "en"], ["es", "en", "fr"]]))))
@@ -635,6 +641,10 @@ def triples(draw):
         else:
             h.append(["parse", draw(st.sampled_from(STRINGS)), None, draw(st.sampled_from(LANGS[1:])), None, None, S2])
         h.append(["use_parser", 0, s1, None])
+        # the same long-lived parser falls through to DEFAULT_LANGUAGES again (and again): the fallback must work every time
+        for _ in range(draw(st.integers(0, 3))):
+            h.append(["use_parser", 0, draw(st.sampled_from(["02/03/2020 10h15", "02.03.2020 10h15", "02-03-2016 Uhr", "12 janvier 2020", "3 März 2015 14:05",
+                                                             "12 de enero de 2020", "14 de abril de 2021", "yesterday", "hier", "02-03-2016"])), None])
         return {"history": h}
     h = []
     if use_instance:
